@@ -102,7 +102,7 @@ func init() {
 		ID:        "C01",
 		Technique: "static analysis: path enumeration over canonicalised accessor functions with boolean implication of the bounds/arity facts (truth table); type-token coherence of typed get/set arms",
 		Explain: "Decides the rejection clause and the wiring of coordinate addressing: (S1) every non-error iteration path of Ltoi's coordinate loop has established coord >= 0 and coord < size, and the scalar branch accepts only 0; (S2) in At/SetAt/MaskAt/SetMaskAt every path to Get/Set/mask[...] has passed the arity check and the error check of the offset computation and uses exactly that offset, at() is Ltoi over the tensor's own Shape() and Strides(), maskAt() is at(); (K3/K1arms) the typed Get/Set/Memset arms of array and storage.Header use only accessors and assertions of their own label type and agree with their sibling arms; (S8) stride-routine selection by data order. " +
-			"Not decided: that CalcStrides* compute the right products and that Ltoi's sum is the rank in data order (value arithmetic); behaviour of the column-major converting constructor. Round 7: (EP) every refusal a function constructs itself precedes any effect on the receiver/parameters, deferred closures included. Round 11: (O13) no MakeAP call stores the live shape/strides slice of the receiver's or a parameter's own pattern; (T13) the general branch of AP.T permutes by the requested axes on every path. Round 13: (T8) every copying transpose kernel walks in the tensor's data order; (S7) Reshape refuses every non-contiguous tensor.",
+			"Not decided: the values the stride calculators and Ltoi produce when they are written in another form than the reviewed one (S10/S22 compare the recurrence of the calculators and the accumulation of Ltoi - offset plus coordinate times the stride of the same axis - with the textbook terms while the statement skeleton is the reviewed one, and abstain on a rewrite); behaviour of the column-major converting constructor. Round 7: (EP) every refusal a function constructs itself precedes any effect on the receiver/parameters, deferred closures included. Round 11: (O13) no MakeAP call stores the live shape/strides slice of the receiver's or a parameter's own pattern; (T13) the general branch of AP.T permutes by the requested axes on every path. Round 13: (T8) every copying transpose kernel walks in the tensor's data order; (S7) Reshape refuses every non-contiguous tensor.",
 		Run: func(rc *rules.RC) {
 			rules.T8(rc)
 			rules.S7(rc)
